@@ -170,8 +170,6 @@ Definition no_cr_nul (s : str) : bool := forallb (fun c => negb ((c =? 13) || (c
 
 (* --------------------------------------------- the round trip, executable *)
 
-Definition qname_eqb (a b : qname) : bool :=
-  ostr_eqb (qprefix a) (qprefix b) && str_eqb (qns a) (qns b) && str_eqb (qlocal a) (qlocal b).
 Definition attr_eqb (a b : attr) : bool := qname_eqb (aname a) (aname b) && str_eqb (avalue a) (avalue b).
 
 Fixpoint list_eqb {A} (f : A -> A -> bool) (a b : list A) : bool :=
